@@ -526,3 +526,42 @@ def check_codec_readers(ctx, oid):
     # ---- ping, inventory
     fp, k, got = run("parse_ping_payload", {"payload": le(P("nonce", tm.INT), 8)})
     R.check(oid, "ROUND-TRIP", fp, "ping reader: nonce little-endian", k == "return" and isinstance(got, dict) and tm.veq(got.get("nonce"), P("nonce", tm.INT)), "parse_ping_payload: %s" % tm.show(got)[:80])
+
+
+def check_field_readers(ctx, oid):
+    """txin_deser / txout_deser invert txin / txout for arbitrary contents, with arbitrary bytes following."""
+    R = ctx.R
+    ev = ctx.evaluator(max_depth=12)
+    f_out, f_in, f_txout = ctx.fn(TX + "outpoint"), ctx.fn(TX + "txin"), ctx.fn(TX + "txout")
+    f_ind, f_outd = ctx.fn(TX + "txin_deser"), ctx.fn(TX + "txout_deser")
+    lens = [0, 1, 75, 76, 252, 253, 254, 255, 256, 65535, 65536] if ctx.thorough else [0, 1, 107, 252, 253, 65536]
+    bad_i, bad_o = [], []
+    for n in lens:
+        for rest in (b"", tm.sized("rest", 6)):
+            txid, vout, ss, seq = tm.sized("txid", 32), P("vout", tm.INT), tm.sized("scriptsig", n), tm.sized("sequence", 4)
+            op, e1 = _val(ev, f_out, {"txid_": txid, "index": vout}, "outpoint")
+            ti, e2 = _val(ev, f_in, {"prev_outpoint": op, "script_sig": ss, "sequence": seq}, "txin") if not e1 else (None, e1)
+            k, v = rules.outcome(ev.run(f_ind, {f_ind.params()[0]: tm.cat([ti, rest])}, use_defaults=True)) if not e2 else ("raise", e2)
+            want = {"txid": tm.hexs(txid), "vout": vout, "scriptsig": tm.hexs(ss), "sequence": tm.hexs(seq)}
+            if not (k == "return" and isinstance(v, (list, tuple)) and len(v) == 2 and isinstance(v[0], dict) and all(tm.veq(v[0].get(q), w) for q, w in want.items()) and _same(v[1], rest)):
+                bad_i.append((n, tm.blen(rest), k, tm.show(v)[:160]))
+            value, spk = P("value", tm.INT), tm.sized("scriptpubkey", n)
+            to, e3 = _val(ev, f_txout, {"value": value, "script_pubkey": spk}, "txout")
+            k, v = rules.outcome(ev.run(f_outd, {f_outd.params()[0]: tm.cat([to, rest])}, use_defaults=True)) if not e3 else ("raise", e3)
+            want = {"value": value, "scriptpubkey": tm.hexs(spk)}
+            if not (k == "return" and isinstance(v, (list, tuple)) and len(v) == 2 and isinstance(v[0], dict) and all(tm.veq(v[0].get(q), w) for q, w in want.items()) and _same(v[1], rest)):
+                bad_o.append((n, tm.blen(rest), k, tm.show(v)[:160]))
+    R.check(oid, "ROUND-TRIP", f_ind, "txin_deser(txin(outpoint, script, sequence) || rest) = (fields, rest) for script lengths %s" % lens, not bad_i,
+            "txin_deser does not invert txin for a %s-byte script followed by %s bytes: %s %s" % (bad_i[0] if bad_i else ("", "", "", "")),
+            example=("an input with a %d-byte scriptSig" % bad_i[0][0]) if bad_i else None)
+    R.check(oid, "ROUND-TRIP", f_outd, "txout_deser(txout(value, script) || rest) = (fields, rest) for script lengths %s" % lens, not bad_o,
+            "txout_deser does not invert txout for a %s-byte script followed by %s bytes: %s %s" % (bad_o[0] if bad_o else ("", "", "", "")),
+            example=("an output with a %d-byte scriptPubKey" % bad_o[0][0]) if bad_o else None)
+    # BIP141 framing refusals on crafted buffers: marker 00 must be followed by flag 01
+    f_des = ctx.fn(TX + "tx_deser")
+    body = tm.cat([b"\x01", tm.sized("txid", 32), tm.i2b(P("vout", tm.INT), 4, "little"), b"\x00", tm.sized("seq", 4), b"\x01", tm.i2b(P("value", tm.INT), 8, "little"), b"\x00"])
+    for flag in (0, 2, 255):
+        buf = tm.cat([tm.i2b(P("version", tm.INT), 4, "little"), b"\x00", bytes([flag]), body, b"\x00", tm.i2b(P("locktime", tm.INT), 4, "little")])
+        k, v = rules.outcome(ev.run(f_des, {f_des.params()[0]: buf}, use_defaults=True))
+        R.check(oid, "DOM", f_des, "marker 00 followed by flag %02x is refused" % flag, k == "raise", "tx_deser accepts a BIP141 flag byte %02x: %s" % (flag, tm.show(v)[:100]),
+                example="a serialisation with marker 00 and flag %02x" % flag, nontrivial=False)
